@@ -21,7 +21,10 @@ func (r *run) subInt(x, y value) value {
 
 func (r *run) wallNow() value {
 	c := r.clockRead()
-	return &sym{sx("+", c.t, r.wallOffset()), SInt}
+	if nc, ok := c.(int64); ok {
+		return nc + 1700000000000000000
+	}
+	return &sym{sx("+", intTerm(c), r.wallOffset()), SInt}
 }
 
 func addTimeIntrinsics(m map[string]intrinsicFn) {
@@ -158,7 +161,12 @@ func addTimeIntrinsics(m map[string]intrinsicFn) {
 		}
 		was := !tm.fired && !tm.stopped
 		now := r.clockRead()
-		tm.deadline = sx("+", now.t, intTerm(a[1]))
+		tm.deadline = sx("+", intTerm(now), intTerm(a[1]))
+		if nc, ok := now.(int64); ok {
+			if dc, ok := a[1].(int64); ok {
+				tm.deadline = smtInt(nc + dc)
+			}
+		}
 		tm.fired, tm.stopped = false, false
 		return was
 	}
